@@ -311,6 +311,97 @@ func runC05CaseInner(cc c05Case, pb *panicBox) (string, string) {
 	return "", ""
 }
 
+// abandonedCloseScenario: a streaming writer has written part of a message; its Close cannot get the frame lock
+// before the writer's context expires, because a Ping frame is stuck in the transport. Nothing failed in the
+// transport, so the connection stays open with the message unfinished on the wire. Whatever later writers do,
+// the peer must never see a new data message start inside the open one, and every Write that returned nil must
+// arrive as exactly one whole message.
+func abandonedCloseScenario(client bool, flate int) (string, string) {
+	a, b := newPipe()
+	gate := make(chan struct{}, 64)
+	a.writeGate = gate
+	copts := websocket.VerifCopts{Enabled: flate != 0, ClientNoContextTakeover: flate == 2, ServerNoContextTakeover: flate == 2}
+	c := websocket.VerifNewConn(a, client, copts, 64)
+	peer := newRawPeer(b, !client)
+	defer b.Close()
+	defer c.CloseNow()
+	desc := fmt.Sprintf("abandoned Close, client=%v flate=%d", client, flate)
+	bg, cancel := context.WithTimeout(context.Background(), 15*time.Second)
+	defer cancel()
+	go func() { c.Reader(bg) }() // pongs are processed
+	ctxW, cancelW := context.WithTimeout(bg, 150*time.Millisecond)
+	defer cancelW()
+	w, err := c.Writer(ctxW, websocket.MessageBinary)
+	if err != nil {
+		return "writer-failed", desc + ": " + err.Error()
+	}
+	first := taggedMsg(0, 0, 300)
+	if _, err := w.Write(first[:200]); err != nil {
+		return "first-chunk-failed", desc + ": " + err.Error()
+	}
+	pingRet := make(chan error, 1)
+	go func() { pingRet <- c.Ping(bg) }() // takes the frame lock and blocks in the transport: no token yet
+	time.Sleep(30 * time.Millisecond)
+	cerr := w.Close() // waits for the frame lock until ctxW expires
+	for i := 0; i < 32; i++ {
+		gate <- struct{}{} // the transport accepts writes again
+	}
+	// the peer answers the ping
+	peerDone := make(chan struct{})
+	go func() {
+		defer close(peerDone)
+		for {
+			f, err := peer.readFrame(1500 * time.Millisecond)
+			if err != nil {
+				return
+			}
+			if f.Op == 9 {
+				peer.writeFrame(RawFrame{Fin: true, Op: 10, Payload: f.Payload})
+			}
+		}
+	}()
+	select {
+	case <-pingRet:
+	case <-time.After(3 * time.Second):
+		return "ping-stuck", desc + ": Ping did not return after the transport resumed and the peer answered"
+	}
+	// later writers on the same connection
+	var acked [][]byte
+	for seq := 1; seq <= 3; seq++ {
+		p := taggedMsg(1, seq, 100+seq)
+		ctx2, c2 := context.WithTimeout(bg, 150*time.Millisecond)
+		if c.Write(ctx2, websocket.MessageBinary, p) == nil {
+			acked = append(acked, p)
+		}
+		c2()
+	}
+	if cerr == nil {
+		acked = append(acked, first[:200])
+	}
+	c.CloseNow()
+	<-peerDone
+	peer.mu.Lock()
+	trace := append([]RawFrame(nil), peer.frames...)
+	peer.mu.Unlock()
+	wc := &WriteCase{Client: client, Flate: flate != 0, CNCT: flate == 2, SNCT: flate == 2}
+	msgs, _, _, shape, what := checkConformance(wc, reencode(trace, client))
+	if shape != "" && shape != "message-unfinished" && shape != "mask-key-reused" {
+		return "emitted-stream:" + shape, fmt.Sprintf("%s (Close of the first writer returned %v): %s", desc, cerr, what)
+	}
+	for _, p := range acked {
+		n := 0
+		for _, m := range msgs {
+			if m.Data == hx(p) {
+				n++
+			}
+		}
+		if n != 1 {
+			return "acknowledged-message-lost", fmt.Sprintf("%s: a message whose write returned nil reached the peer %d times (Close of the first writer returned %v)", desc, n, cerr)
+		}
+	}
+	return "", ""
+}
+
 // reencode: checkConformance works on bytes; rebuild the byte stream from the parsed frames.
 func reencode(tr []RawFrame, client bool) []byte {
 	var b []byte
@@ -378,11 +469,26 @@ func runC05(ctx *runCtx) {
 	// a client connection closed while one of its frame writes is stuck in the transport: later
 	// connections must not receive its bytes (the frame lock must cover the whole life of the frame)
 	{
-		sh, w := staleWriterScenario(3)
+		sh, w := staleWriterScenario(3, false)
+		if sh == "" {
+			sh, w = staleWriterScenario(3, true)
+		}
 		rep.eval("scenario/stale-writer")
 		rep.count("scenario:stale-writer")
 		if sh != "" {
 			rep.violate(Violation{Kind: "property", Shape: sh, What: w, Replay: map[string]interface{}{"scenario": "stale-writer"}})
+		}
+	}
+	// a streaming writer whose Close gives up waiting for the frame lock while the connection stays open
+	for _, client := range []bool{false, true} {
+		for fl := 0; fl <= 2; fl++ {
+			client, fl := client, fl
+			sh, w := guarded(40*time.Second, func() (string, string) { return abandonedCloseScenario(client, fl) })
+			rep.eval(fmt.Sprintf("scenario/abandoned-close/%v/%d", client, fl))
+			rep.count("scenario:abandoned-close")
+			if sh != "" {
+				rep.violate(Violation{Kind: "property", Shape: sh, What: w, Replay: map[string]interface{}{"scenario": "abandoned-close", "client": client, "flate": fl}})
+			}
 		}
 	}
 	if raceEnabled {
